@@ -503,7 +503,14 @@ where
             return;
         }
         // matrix of weighted model function values
-        let Phi_w = self.model.eval().ok().map(|Phi| &self.weights * Phi);
+        // a matrix with non-finite entries has no meaningful decomposition and
+        // the SVD iteration is not guaranteed to terminate on it
+        let Phi_w = self
+            .model
+            .eval()
+            .ok()
+            .map(|Phi| &self.weights * Phi)
+            .filter(|Phi_w| Phi_w.iter().all(|value| value.is_finite()));
 
         // calculate the svd
         let svd_epsilon = self.svd_epsilon;
@@ -642,7 +649,14 @@ where
             return;
         }
         // matrix of weighted model function values
-        let Phi_w = self.model.eval().ok().map(|Phi| &self.weights * Phi);
+        // a matrix with non-finite entries has no meaningful decomposition and
+        // the SVD iteration is not guaranteed to terminate on it
+        let Phi_w = self
+            .model
+            .eval()
+            .ok()
+            .map(|Phi| &self.weights * Phi)
+            .filter(|Phi_w| Phi_w.iter().all(|value| value.is_finite()));
 
         // calculate the svd
         let svd_epsilon = self.svd_epsilon;
